@@ -2,7 +2,7 @@ import NitroVerif.Model.SourceMap
 import NitroVerif.Spec.SourceMap
 /-! Helper lemmas for C06 (no property statements here). -/
 namespace NitroVerif.SourceMap
-open NitroVerif.SourceMapSpec (b64Val vlqDecodeNat fromVlqSigned vlqDecode vlqDecodeMany Segment DState applyFields closeSeg decodeGo decodeMappings)
+open NitroVerif.SourceMapSpec (strictGo strictSegments b64Val vlqDecodeNat fromVlqSigned vlqDecode vlqDecodeMany Segment DState applyFields closeSeg decodeGo decodeMappings)
 
 /-! ### VLQ -/
 
@@ -73,7 +73,7 @@ theorem vlqRest_shape (v : Nat) : v ≠ 0 →
       · omega
       · exact hi d hd
     · have hq0 : v / 32 = 0 := by omega
-      refine ⟨[], v % 32, by simp [hq, hq0, vlqRest_zero], by omega, by simp⟩
+      refine ⟨[], v % 32, by simp [hq0, vlqRest_zero], by omega, by simp⟩
 
 theorem vlqEncode_ne_nil (n : Int) : vlqEncode n ≠ [] := by
   unfold vlqEncode; simp only; split <;> simp
@@ -349,7 +349,7 @@ theorem decodeGo_encodeFrom (es : List Entry) :
       have hb : (st.lastGenLine != e.genLine) = false := by simp [hsame]
       have hk : e.genLine - st.lastGenLine = 0 := by omega
       simp only [hb, hk, List.replicate_zero, List.nil_append, Bool.false_eq_true, if_false,
-        List.cons_append, List.append_assoc]
+        List.cons_append]
       have hne : ¬ ((',' : Char) = ';') := by decide
       simp only [decodeGo, hne, if_false, if_true, hc]
       rw [decodeGo_digits _ hdig, List.nil_append]
@@ -826,5 +826,131 @@ theorem flatten_groupFrom (es : List Entry) : ∀ (L : Nat) (line : List Segment
       have : L + 1 + (e.genLine - L - 1) = e.genLine := by omega
       rw [this, ih e.genLine _ hm']
       simp
+
+/-! ### FileMap (cli/src/generate.rs) -/
+
+/-- a file is listed in `sources` iff it is a schema file or one of the document's files -/
+def keptFile (nSchema : Nat) (used : List Nat) (f : Nat) : Prop := f < nSchema ∨ used.contains f = true
+
+theorem fileIndicesOpGo_spec (nSchema : Nat) (used : List Nat) (r : Nat) :
+    ∀ (idx next : Nat) (pre : List Nat),
+    pre.length = (if idx < nSchema then idx else next) →
+    (idx < nSchema → next = nSchema) → next ≤ idx + nSchema → idx + nSchema + r < usizeMax →
+    ∀ f, idx ≤ f → f < idx + r → keptFile nSchema used f →
+    ∃ i, (fileIndicesOpGo nSchema used idx next r)[f - idx]? = some i ∧ i ≠ usizeMax ∧
+      (pre ++ sourceFilesGo idx (fileIndicesOpGo nSchema used idx next r))[i]? = some f := by
+  induction r with
+  | zero => intro idx next pre _ _ _ _ f h1 h2; omega
+  | succ r ih =>
+    intro idx next pre hpre hns hle hbound f h1 h2 hk
+    by_cases hs : idx < nSchema
+    · have hne : idx ≠ usizeMax := by omega
+      simp only [fileIndicesOpGo, hs, if_true, sourceFilesGo, hne, if_false]
+      simp only [hs, if_true] at hpre
+      by_cases hf : f = idx
+      · subst hf
+        refine ⟨f, by simp, hne, ?_⟩
+        rw [List.getElem?_append_right (by omega)]
+        simp [hpre]
+      · have := ih (idx + 1) next (pre ++ [idx])
+          (by simp only [List.length_append, List.length_singleton, hpre]
+              split
+              · rfl
+              · have := hns hs; omega)
+          (fun _ => hns hs) (by omega) (by omega) f (by omega) (by omega) hk
+        obtain ⟨i, e1, e2, e3⟩ := this
+        refine ⟨i, ?_, e2, ?_⟩
+        · have : f - idx = (f - (idx + 1)) + 1 := by omega
+          rw [this, List.getElem?_cons_succ]; exact e1
+        · simpa [List.append_assoc] using e3
+    · simp only [hs, if_false] at hpre
+      by_cases hu : used.contains idx = true
+      · have hne : next ≠ usizeMax := by omega
+        simp only [fileIndicesOpGo, hs, if_false, hu, if_true, sourceFilesGo, hne]
+        by_cases hf : f = idx
+        · subst hf
+          refine ⟨next, by simp, hne, ?_⟩
+          rw [List.getElem?_append_right (by omega)]
+          simp [hpre]
+        · have := ih (idx + 1) (next + 1) (pre ++ [idx])
+            (by simp only [List.length_append, List.length_singleton, hpre]
+                have : ¬ (idx + 1 < nSchema) := by omega
+                simp [this])
+            (fun h => by omega) (by omega) (by omega) f (by omega) (by omega) hk
+          obtain ⟨i, e1, e2, e3⟩ := this
+          refine ⟨i, ?_, e2, ?_⟩
+          · have : f - idx = (f - (idx + 1)) + 1 := by omega
+            rw [this, List.getElem?_cons_succ]; exact e1
+          · simpa [List.append_assoc] using e3
+      · simp only [fileIndicesOpGo, hs, if_false, hu, sourceFilesGo, if_true, Bool.false_eq_true]
+        have hf : f ≠ idx := by
+          intro e; subst e
+          rcases hk with hk | hk
+          · exact hs hk
+          · exact hu hk
+        have := ih (idx + 1) next pre
+          (by have : ¬ (idx + 1 < nSchema) := by omega
+              simp [this, hpre])
+          (fun h => by omega) (by omega) (by omega) f (by omega) (by omega) hk
+        obtain ⟨i, e1, e2, e3⟩ := this
+        refine ⟨i, ?_, e2, e3⟩
+        have : f - idx = (f - (idx + 1)) + 1 := by omega
+        rw [this, List.getElem?_cons_succ]; exact e1
+
+/-! ### empty segments -/
+
+theorem strictGo_digits (ds : List Nat) : (∀ d ∈ ds, d < 64) → ds ≠ [] →
+    ∀ (se ac : Bool) (rest : List Char), strictGo se ac (ds.map b64Char ++ rest) = strictGo false ac rest := by
+  induction ds with
+  | nil => intro _ h; exact absurd rfl h
+  | cons d ds ih =>
+    intro h _ se ac rest
+    obtain ⟨_, h2, h3⟩ := b64_table d (h d (by simp))
+    simp only [List.map_cons, List.cons_append, strictGo, h2, h3, if_false]
+    cases ds with
+    | nil => simp
+    | cons d2 ds2 => exact ih (fun x hx => h x (by simp [hx])) (by simp) false ac rest
+
+theorem strictGo_semis (k : Nat) (rest : List Char) :
+    strictGo true false (List.replicate k ';' ++ rest) = strictGo true false rest := by
+  induction k with
+  | zero => simp
+  | succ k ih =>
+    have hne : ¬ ((';' : Char) = ',') := by decide
+    simp [List.replicate_succ, strictGo, hne, ih]
+
+theorem fields_digits_ne_nil (st : MState) (e : Entry) : (fieldsOf st e).flatMap vlqEncode ≠ [] := by
+  have hl := length_le_flatMap_vlq (fieldsOf st e)
+  have : 4 ≤ (fieldsOf st e).length := by unfold fieldsOf; cases e.name <;> simp
+  intro h; rw [h] at hl; simp only [List.length_nil] at hl; omega
+
+/-- once a segment is open, everything the writer appends keeps the text free of empty segments -/
+theorem strictGo_encodeFrom (es : List Entry) : ∀ (st : MState) (ac : Bool), Mono st.lastGenLine es →
+    strictGo false ac (encodeFrom st es) = true := by
+  induction es with
+  | nil => intro st ac _; simp [encodeFrom, strictGo]
+  | cons e es ih =>
+    intro st ac hm
+    obtain ⟨hle, hm'⟩ := hm
+    have hdig := flatMap_vlq_digits (fieldsOf st e)
+    have hnn := fields_digits_ne_nil st e
+    have hL : (addEntry st e).lastGenLine = e.genLine := rfl
+    simp only [encodeFrom, emit_eq]
+    by_cases hsame : e.genLine = st.lastGenLine
+    · have hb : (st.lastGenLine != e.genLine) = false := by simp [hsame]
+      have hk : e.genLine - st.lastGenLine = 0 := by omega
+      simp only [hb, hk, List.replicate_zero, List.nil_append, Bool.false_eq_true, if_false,
+        List.cons_append]
+      simp only [strictGo, if_true, Bool.not_false, Bool.true_and]
+      rw [strictGo_digits _ hdig hnn]
+      exact ih _ _ (by rw [hL]; exact hm')
+    · have hb : (st.lastGenLine != e.genLine) = true := by
+        simp only [bne_iff_ne, ne_eq]; omega
+      obtain ⟨k, hk⟩ : ∃ k, e.genLine - st.lastGenLine = k + 1 := ⟨e.genLine - st.lastGenLine - 1, by omega⟩
+      have hne : ¬ ((';' : Char) = ',') := by decide
+      simp only [hb, hk, if_true, List.append_nil, List.replicate_succ, List.cons_append, List.append_assoc]
+      simp only [strictGo, hne, if_false, if_true, Bool.and_false, Bool.not_false, Bool.true_and]
+      rw [strictGo_semis, strictGo_digits _ hdig hnn]
+      exact ih _ _ (by rw [hL]; exact hm')
 
 end NitroVerif.SourceMap
